@@ -14,7 +14,7 @@ RULE = ("cases: streams of 2..7 batches of announcements from 4 real Ed25519 key
         "(got_announcements) and IntroducerService (publish): valid, replayed, reordered, duplicate, wrong claimed key, flipped "
         "message / signature bytes, malformed encodings (unsigned, no v0- prefix, bad base32, wrong length, respelled key, not a "
         "triple), signed-but-malformed content (not UTF-8 / JSON / object, no service-name, bad nickname / FURL), missing, float and "
-        "non-numeric seqnum; in about three streams of four the connection to the introducer is lost and re-established between batches "
+        "non-numeric seqnum; new subscribers register in mid-stream and are checked against what is held; in about three streams of four the connection to the introducer is lost and re-established between batches "
         "(notifyOnDisconnect callback, then _got_versioned_introducer) and old validly signed announcements are replayed right after; non-trivial = a stream in which at least one announcement replaces a stored one and at least one bad "
         "announcement precedes a good one in the same batch; distinct = distinct (verdict sequence of the stream)")
 META = {
@@ -463,20 +463,62 @@ class FakeIntroducer(object):
             cb(*a, **kw)
 
 
-def run_client(batches, cache, reconnects=(), connected=False):
-    """Feed the stream to a real IntroducerClient. -> dict(delivered, stored, counts, errors)
+def drain_eventual():
+    """Run foolscap's eventual-send queue to exhaustion (what the reactor does on its next turns)."""
+    from foolscap import eventual
+    q = eventual._theSimpleQueue
+    for _ in range(1000):
+        if not q._events:
+            break
+        if q._timer is not None and q._timer.active():
+            q._timer.cancel()
+        q._turn()
+
+
+def run_client(batches, cache, reconnects=(), connected=False, late=None):
+    """Feed the stream to a real IntroducerClient. -> dict(delivered, stored, counts, errors, late)
     With `connected`, the client is given an introducer connection the way foolscap does
     (_got_versioned_introducer), batches arrive through remote_announce_v2, and before the batches listed
-    in `reconnects` the connection is lost (the notifyOnDisconnect callback fires) and re-established."""
+    in `reconnects` the connection is lost (the notifyOnDisconnect callback fires) and re-established.
+    `late` maps a batch index to services for which a NEW subscriber registers after that batch; what it is
+    told (the backlog) is recorded together with what the early subscribers hold at that moment."""
     from twisted.python.filepath import FilePath
     from allmydata.introducer.client import IntroducerClient
     ic = IntroducerClient(None, "introducer.furl", u"verif", "ver", "oldest", lambda: (1, "n"), FilePath(cache))
-    log = delivered = []
+    log = []
     at = []
     cur = [0]
+    replaying = [False]          # a late subscription replays the backlog to every observer of the service: not a delivery
+
+    def early(svc):
+        def cb(key_s, ann):
+            if not replaying[0]:
+                log.append((svc, key_s, json.dumps(ann, sort_keys=True)))
+                at.append(cur[0])
+        return cb
     for svc in SUBSCRIBED:
-        ic.subscribe_to(svc, lambda key_s, ann, svc=svc: (log.append((svc, key_s, json.dumps(ann, sort_keys=True))), at.append(cur[0])))
+        ic.subscribe_to(svc, early(svc))
+
+    def held(svc):
+        h = {}
+        for s_, ks, c in log:
+            if s_ == svc:
+                h[ks] = c
+        return sorted(h.items())
+
+    def late_subscribe(svc):
+        seen = []
+        active = [True]
+        replaying[0] = True
+        try:
+            ic.subscribe_to(svc, lambda key_s, ann: active[0] and seen.append((key_s, json.dumps(ann, sort_keys=True))))
+            drain_eventual()
+        finally:
+            replaying[0] = False
+            active[0] = False
+        return seen
     errors = []
+    late_obs = []
     intro = None
     if connected or reconnects:
         intro = FakeIntroducer()
@@ -494,16 +536,18 @@ def run_client(batches, cache, reconnects=(), connected=False):
                 ic.got_announcements([it["wire"] for it in batch])
         except BaseException as e:
             errors.append((bi, type(e).__name__, str(e)[:120]))
-    # read the store back through the public API: a late subscriber is told everything that is stored
-    # (the replay notifies every observer of the service, so freeze the delivery log first)
-    delivered = list(delivered)
+        drain_eventual()
+        for svc in (late or {}).get(bi, ()):
+            late_obs.append(dict(after_batch=bi, service=svc, held=held(svc), seen=late_subscribe(svc)))
+    # read the whole store back through the public API: one more late subscriber per service
+    delivered = list(log)
     at = list(at)
     stored = []
     for svc in SUBSCRIBED:
-        seen = []
-        ic.subscribe_to(svc, lambda key_s, ann, svc=svc, seen=seen: seen.append((svc, key_s, json.dumps(ann, sort_keys=True))))
-        stored.extend(seen)
-    return dict(delivered=delivered, delivered_at=at, stored=stored, counts=dict(ic._debug_counts), errors=errors)
+        seen = late_subscribe(svc)
+        late_obs.append(dict(after_batch=len(batches) - 1, service=svc, held=held(svc), seen=seen, final=True))
+        stored.extend((svc, ks, c) for ks, c in seen)
+    return dict(delivered=delivered, delivered_at=at, stored=stored, counts=dict(ic._debug_counts), errors=errors, late=late_obs)
 
 
 def run_server(batches):
@@ -530,8 +574,11 @@ def one_stream(ctx, i, alias_ok, cache, terms, info):
     for b in batches:
         for it in b:
             it["alias_ok"] = alias_ok
-    obs = run_client(batches, cache, reconnects, connected=(i % 2 == 1))
-    cinfo = {"stream": "stream", "index": i, "batches": describe(batches), "connection_lost_before_batches": sorted(reconnects)}
+    rl = ctx.rng("late", i)
+    late = dict((bi, [rl.choice(SUBSCRIBED + ["storage"])]) for bi in range(len(batches) - 1) if rl.random() < 0.3)
+    obs = run_client(batches, cache, reconnects, connected=(i % 2 == 1), late=late)
+    cinfo = {"stream": "stream", "index": i, "batches": describe(batches), "connection_lost_before_batches": sorted(reconnects),
+             "late_subscriptions_after_batches": dict((str(k), v) for k, v in sorted(late.items()))}
     canon_of = dict((key(k)[2], k) for k in range(1, NKEYS + 1))
 
     # ---- direct oracle ----
@@ -577,6 +624,21 @@ def one_stream(ctx, i, alias_ok, cache, terms, info):
                                     case=cinfo, expected="seqnum > %r" % (last[idx],), observed=s_new)
         last[idx] = s_new
         last_at[idx] = bi
+    for lo in obs["late"]:
+        if sorted(lo["seen"]) != lo["held"]:
+            wrong = [(ks, c) for ks, c in lo["seen"] if (ks, c) not in lo["held"]]
+            ctx.count("late-subscription-mismatch")
+            ctx.oracle_fail("late-subscriber-gets-wrong-announcement",
+                            "a subscriber registering for %r after batch %d (with %d announcements held for that service) was told %d (key, announcement) pairs; "
+                            "%s" % (lo["service"], lo["after_batch"], len(lo["held"]), len(lo["seen"]),
+                                    ("under key %s it was handed an announcement that is not the one held for that key: seqnum %r instead of %r"
+                                     % (wrong[0][0].decode(), json.loads(wrong[0][1]).get("seqnum"),
+                                        json.loads(dict(lo["held"]).get(wrong[0][0], "{}")).get("seqnum"))) if wrong else "some held announcements were not passed on"),
+                            case=cinfo, expected=[(k.decode(), json.loads(c).get("nickname"), json.loads(c).get("seqnum")) for k, c in lo["held"]],
+                            observed=[(k.decode(), json.loads(c).get("nickname"), json.loads(c).get("seqnum")) for k, c in lo["seen"]])
+            break
+        if len(lo["held"]) >= 2 and not lo.get("final"):
+            ctx.count("late-subscription-with-2+-held")
     if not obs["errors"] and got != want:
         missing = [x for x in want if x not in got]
         extra = [x for x in got if x not in want]
@@ -626,6 +688,19 @@ def one_stream(ctx, i, alias_ok, cache, terms, info):
                      % (T.boolean(alias_ok), T.lst(sym.tbl), subs, T.lst(evs), dl, stq, cnt["new_announcement"], cnt["update"],
                         cnt["duplicate_announcement"], cnt["wrong_service"], npassed, cnt["inbound_announcement"]))
     info.append(("client", i, cinfo, {"delivered": obs["delivered"], "counts": cnt, "errors": obs["errors"]}))
+    mid = [lo for lo in obs["late"] if not lo.get("final")]
+    if mid and not obs["errors"]:
+        lo = mid[-1]
+        prefix = []
+        for bi, bt in enumerate(bts[:lo["after_batch"] + 1]):
+            if bi in reconnects:
+                prefix.append("EReconnect")
+            prefix.append("(EBatch %s)" % bt)
+        seen = T.lst(["(%s, %s, %s)" % (T.N(ksym(ks)[0]), T.N(ksym(ks)[1]), T.N(body(c))) for ks, c in lo["seen"]])
+        terms.append("triples_seteq (backlog_ids (fst (sym_run_events %s %s true %s %s)) %s) %s"
+                     % (T.boolean(alias_ok), T.lst(sym.tbl), subs, T.lst(prefix), T.N(sym.svc(lo["service"])), seen))
+        info.append(("client", i, cinfo, {"late_subscription": {"after_batch": lo["after_batch"], "service": lo["service"],
+                                                                 "seen": [(k.decode(), json.loads(c).get("seqnum")) for k, c in lo["seen"]]}}))
 
     # ---- server: same stream, one publish at a time ----
     sstored, sraised = run_server(batches)
